@@ -35,29 +35,31 @@ theorem prog_main_mem_flat : mainTrace prog ∈ flat prog false := by decide
 /-- **C26, crash clause.**  Kill the formatting run after `k` file-system operations
 (`mid = none`) or inside operation `k` (`mid = some n`: if it is the write, `n` bytes have been
 transferred): `path` then holds the complete original or the complete formatted content.
-For every original content, formatted content, mode, stale temp file, umask, `k`, `n`. -/
+For every original content, formatted content, mode, stale temp file, umask, `k`, `n`, and whether
+or not the path is a symbolic link to the file (`link`): "the file's path holds X" = X is what reading
+through the path yields; the mode is that of the file holding the content. -/
 theorem C26_crash_safe (orig fmt : Bytes) (mode : Nat) (stale : Option File) (umask : Nat)
-    (k : Nat) (mid : Option Nat) (pw : Nat → Nat) :
-    ∃ f, (runUntilCrash fmt (mainTrace prog) k mid pw (init orig mode stale umask)).path = some f ∧
+    (link : Option Nat) (k : Nat) (mid : Option Nat) (pw : Nat → Nat) :
+    ∃ f, (runUntilCrash fmt (mainTrace prog) k mid pw (init orig mode stale umask link)).path = some f ∧
       (f.content = orig ∨ f.content = fmt) :=
-  crash_safe_of_safeSeq _ prog_main_safeSeq orig fmt mode stale umask k mid pw
+  crash_safe_of_safeSeq _ prog_main_safeSeq orig fmt mode stale umask k mid pw link
 
 /-- **C26, mode clause.**  After a successful run `path` holds exactly the formatted content
 with the original permission bits. -/
 theorem C26_mode_kept (orig fmt : Bytes) (mode : Nat) (stale : Option File) (umask : Nat)
-    (pw : Nat → Nat) :
-    (runEvs fmt (mainTrace prog) pw (init orig mode stale umask)).path = some ⟨fmt, mode⟩ :=
-  mode_kept_of_safeSeqMode _ prog_main_safeSeqMode orig fmt mode stale umask pw
+    (link : Option Nat) (pw : Nat → Nat) :
+    (runEvs fmt (mainTrace prog) pw (init orig mode stale umask link)).path = some ⟨fmt, mode⟩ :=
+  mode_kept_of_safeSeqMode _ prog_main_safeSeqMode orig fmt mode stale umask pw link
 
 /-- **C26 under failing calls.**  The crash clause also holds on every other control path of
 `writeFileWithBackup`: any subset of its calls may fail (a failing write having transferred
 `pw i` bytes), the error-path cleanup runs, and the process may still be killed anywhere. -/
 theorem C26_crash_safe_any_failure (t : List Ev) (ht : t ∈ flat prog false)
     (orig fmt : Bytes) (mode : Nat) (stale : Option File) (umask : Nat)
-    (k : Nat) (mid : Option Nat) (pw : Nat → Nat) :
-    ∃ f, (runUntilCrash fmt t k mid pw (init orig mode stale umask)).path = some f ∧
+    (link : Option Nat) (k : Nat) (mid : Option Nat) (pw : Nat → Nat) :
+    ∃ f, (runUntilCrash fmt t k mid pw (init orig mode stale umask link)).path = some f ∧
       (f.content = orig ∨ f.content = fmt) :=
-  crash_safe_of_safeSeq t (List.all_eq_true.mp prog_all_safeSeq t ht) orig fmt mode stale umask k mid pw
+  crash_safe_of_safeSeq t (List.all_eq_true.mp prog_all_safeSeq t ht) orig fmt mode stale umask k mid pw link
 
 /-- a complete run is the crash point after the last operation -/
 theorem runUntilCrash_all (data : Bytes) : ∀ (t : List Ev) (pw : Nat → Nat) (s : St),
@@ -109,7 +111,7 @@ theorem C26_old_mode_lost (orig fmt : Bytes) (mode : Nat) (stale : Option File) 
     (pw : Nat → Nat) :
     (runEvs fmt (mainTrace oldProg) pw (init orig mode stale umask)).path
       = some ⟨fmt, createMode umask 0o600⟩ := by
-  simp [mainTrace, mainOps, oldProg, runEvs, applyEv, apply, init, writeBytes, St.getLoc, St.setLoc,
+  simp [mainTrace, mainOps, oldProg, runEvs, applyEv, applyL, apply, init, writeBytes, St.getLoc, St.setLoc,
     St.get, St.set, overwrite]
 
 theorem C26_old_mode_not_kept :
@@ -156,6 +158,18 @@ example : ModeSafeSeq [.ok .stat, .ok (.createTemp 0o600), .ok .write, .ok (.chm
                        .ok .close, .ok (.rename .tmp .path)] = true := by decide
 example : ModeSafeSeq [.ok .stat, .ok (.createTemp 0o600), .ok .write, .ok .close,
                        .ok (.rename .tmp .path), .ok (.chmodName .path .origPerm)] = false := by decide
+
+/-- `os.Lstat` instead of `os.Stat`: when the path is a symbolic link (own mode 0777) the link's
+mode is applied — the file reached through the path ends 0777; the variant is not `SafeSeqMode`. -/
+example :
+    let t : List Ev := [.ok .lstat, .ok (.createTemp 0o600), .ok .write, .ok (.chmodFd .origPerm),
+                        .ok .close, .ok (.rename .tmp .path)]
+    (runEvs exFmt t (fun _ => 0) (init exOrig 0o644 none 0o022 (some 0o777))).path = some ⟨exFmt, 0o777⟩
+      ∧ SafeSeqMode t = false ∧ SafeSeq t = true := by decide
+
+/-- the generated program on a symbolic link: content replaced, mode of the target kept -/
+example : (runEvs exFmt (mainTrace prog) (fun _ => 0) (init exOrig 0o640 none 0o022 (some 0o777))).path
+    = some ⟨exFmt, 0o640⟩ := by decide
 
 /-- the program has error paths (more than one trace) and `SafeSeq` is not trivially true -/
 example : 1 < (flat prog false).length := by decide
